@@ -325,6 +325,71 @@ func lifeConfigs() []lifeCfg {
 			w.ctl(&done, 1, nil)
 		}
 	})
+	// 11b. a second close cause arrives while OnClose is running: EventLoop.Close(c) inside OnClose
+	add("elclose-inside-onclose", []string{"nonnil"}, func(w *world, c *lifeCfg) {
+		w.onClose = func(w *world, ci *connInfo, err error) Action {
+			_ = ci.c.EventLoop().Close(ci.c)
+			_ = ci.c.Close()
+			return None
+		}
+		w.script = func(w *world) {
+			done := 0
+			w.peerThread("peer", &done, func(p *peer) {
+				if p.connect() {
+					p.send([]byte("x"))
+					p.close()
+				}
+			})
+			w.ctl(&done, 1, nil)
+		}
+	})
+	// 11c. ... a Write that fails inside OnClose (the peer has reset the connection)
+	add("write-inside-onclose", []string{"nonnil"}, func(w *world, c *lifeCfg) {
+		w.onTraffic = func(w *world, ci *connInfo) Action { _, _ = ci.c.Discard(-1); return None }
+		w.onClose = func(w *world, ci *connInfo, err error) Action {
+			_, _ = ci.c.Write([]byte("goodbye"))
+			return None
+		}
+		w.script = func(w *world) {
+			done := 0
+			w.peerThread("peer", &done, func(p *peer) {
+				if p.connect() {
+					p.send([]byte("x"))
+					p.close()
+				}
+			})
+			w.ctl(&done, 1, nil)
+		}
+	})
+	// 11d. relay pattern: closing one connection closes the other from inside OnClose, and vice versa
+	add("relay-close", []string{"any", "any"}, func(w *world, c *lifeCfg) {
+		w.onTraffic = func(w *world, ci *connInfo) Action { _, _ = ci.c.Discard(-1); return None }
+		w.onClose = func(w *world, ci *connInfo, err error) Action {
+			for _, o := range w.conns {
+				if o != ci {
+					_ = o.c.EventLoop().Close(o.c)
+				}
+			}
+			return None
+		}
+		w.script = func(w *world) {
+			done := 0
+			for i := 0; i < 2; i++ {
+				i := i
+				w.peerThread(fmt.Sprintf("peer%d", i), &done, func(p *peer) {
+					if p.connect() {
+						sched.BlockUntil(func() bool { return len(w.conns) >= 2 })
+						if i == 0 {
+							p.send([]byte("x"))
+							p.close()
+						}
+					}
+				})
+			}
+			w.ctl(&done, 2, nil)
+			w.closerAfterRun()
+		}
+	})
 	// 12. half close: the peer shuts down its writing side and still receives the echo
 	add("peer-half-close", []string{"nonnil"}, func(w *world, c *lifeCfg) {
 		w.onTraffic = echoTraffic
@@ -529,11 +594,18 @@ func engineBounds(quickPB, thoroughPB, db int) []sched.Bound {
 	return bounds
 }
 
+var lifeHeavy = []string{"late-ops-fd-reuse", "shutdown-two-idle", "user-close-vs-peer-close", "wake-asyncwrite-vs-peer-close", "cross-loop-close", "relay-close"}
+
 func lifeSchedConfigs(prop string, check func(lifeCfg) func(*world, *sched.Outcome) (string, string)) ([]sched.Config, func(string) *sched.Config) {
-	bounds := engineBounds(2, 3, 0)
 	var out []sched.Config
 	for _, c := range lifeConfigs() {
 		c := c
+		bounds := engineBounds(2, 3, 0)
+		for _, h := range lifeHeavy {
+			if strings.HasPrefix(c.name, h) {
+				bounds = engineBounds(1, 2, 0) // 6-7 threads: one schedule deviation in the quick tier
+			}
+		}
 		out = append(out, sched.Config{Property: prop, Name: c.name, Bounds: bounds, Horizon: 20000, Deadline: seqmc.Deadline(), DelayBounded: true, New: func() sched.Scenario {
 			w := lifeWorld(c)
 			w.checks = append(w.checks, checkEnd, check(c))
